@@ -441,7 +441,7 @@ func (sm *Subscriptions) processWhenQueryCtx() []chan struct{} {
 		}
 
 		// delete the ctx and all the bindings
-		delete(sm.whenArgsCtx, ctx)
+		delete(sm.whenQueryCtx, ctx)
 		for _, binding := range bindings {
 			sm.gcWhenQueryBinding(binding, false)
 			ret = append(ret, binding.ch)
